@@ -122,7 +122,135 @@ pub fn profile(family: &str) -> Profile {
 pub fn generate(family: &str, rng: &mut Rng) -> Case {
     match family {
         "C08" => gen_registry(rng),
+        "C16" => gen_children(rng),
         _ => gen_actor(&profile(family), rng),
+    }
+}
+
+/// C16: actor trees (up to depth 3 / 6 nodes); children registered under two broadcast types or with
+/// `add_child`, some also held from outside; broadcasts; the parents end by every cause at any time.
+fn gen_children(rng: &mut Rng) -> Case {
+    let n = 2 + rng.below(5);
+    let mut parent = vec![0usize; n];
+    let mut depth = vec![0usize; n];
+    for i in 1..n {
+        loop {
+            let p = rng.below(i);
+            if depth[p] < 2 {
+                parent[i] = p;
+                depth[i] = depth[p] + 1;
+                break;
+            }
+        }
+    }
+    let mut next_h = n; // handles 0..n are the spawn handles
+    let mut next_m = 0usize;
+    let mut next_b = 0usize;
+    let mut setup = vec![];
+    let mut restartable = vec![false; n];
+    for i in 0..n {
+        let strat = if rng.chance(1, 4) { Strat::Recreate } else if rng.chance(1, 4) { Strat::Non } else { Strat::Only };
+        restartable[i] = strat != Strat::Non;
+        let mut beh = Behaviour::default();
+        if rng.chance(1, 6) {
+            beh.tick.push(Act::Work(1 + rng.below(3) as u64));
+        }
+        let spec = SpawnSpec { k: 0, strat, behaviour: beh, ..default_spec() };
+        setup.push(Op::Spawn { a: i, spec, h: i });
+    }
+    // (child, type) registrations; type 0 = add_child
+    let mut reg_ty = vec![0usize; n];
+    for i in 1..n {
+        let hs = next_h;
+        next_h += 1;
+        next_m += 1;
+        let ty = rng.below(3);
+        reg_ty[i] = ty;
+        if ty == 0 {
+            setup.push(Op::MkSenderUnit { h: i, h2: hs });
+            setup.push(Op::Call { h: parent[i], m: next_m, script: vec![Act::AddChild(hs)] });
+        } else {
+            setup.push(Op::MkSenderB { j: ty - 1, h: i, h2: hs });
+            setup.push(Op::Call { h: parent[i], m: next_m, script: vec![Act::RegisterChild { j: ty - 1, h: hs }] });
+        }
+    }
+    let mut held: Vec<usize> = vec![0];
+    for i in 1..n {
+        if rng.chance(2, 3) {
+            setup.push(Op::Drop { h: i });
+        } else {
+            held.push(i);
+        }
+    }
+    let nclients = 1 + rng.below(3);
+    let mut clients: Vec<Vec<Op>> = vec![];
+    let mut fault_tag = "none".to_string();
+    for _ in 0..nclients {
+        let mut ops = vec![];
+        let nops = 1 + rng.below(5);
+        for _ in 0..nops {
+            if held.is_empty() {
+                break;
+            }
+            let h = *rng.pick(&held);
+            match rng.below(12) {
+                0 | 1 | 2 | 3 => {
+                    next_m += 1;
+                    next_b += 1;
+                    ops.push(Op::Send { h, m: next_m, script: vec![Act::SendToChildren { j: rng.below(2), b: next_b }] });
+                }
+                4 => {
+                    next_m += 1;
+                    ops.push(Op::Send { h, m: next_m, script: vec![] });
+                }
+                5 => ops.push(Op::Stop { h }),
+                6 => {
+                    ops.push(Op::Drop { h });
+                    held.retain(|x| *x != h);
+                }
+                7 => {
+                    ops.push(Op::Halt { h });
+                    held.retain(|x| *x != h);
+                }
+                8 => {
+                    next_m += 1;
+                    ops.push(Op::Send { h, m: next_m, script: vec![Act::Panic] });
+                    fault_tag = "handler_panic".into();
+                }
+                9 => {
+                    if restartable[h] {
+                        ops.push(Op::Restart { h })
+                    }
+                }
+                10 => {
+                    next_m += 1;
+                    ops.push(Op::Send { h, m: next_m, script: vec![Act::CtxStop] });
+                }
+                _ => ops.push(if rng.chance(1, 2) { Op::Sleep(1 + rng.below(3) as u64) } else { Op::Yield }),
+            }
+        }
+        clients.push(ops);
+    }
+    let mut cancel = None;
+    if rng.chance(1, 6) {
+        cancel = Some(Fault { actor: rng.below(n), at_poll: 1 + rng.below(8) as u32 });
+        fault_tag = "cancel".into();
+    }
+    let prompt = rng.chance(5, 10);
+    Case {
+        program: Program { setup, clients },
+        sched: sched(rng),
+        prompt,
+        horizon: 100,
+        cancel,
+        tags: vec![
+            format!("nodes={}", n),
+            format!("depth={}", depth.iter().max().unwrap() + 1),
+            format!("outside={}", held.len()),
+            format!("clients={}", nclients),
+            format!("fault={}", fault_tag),
+            format!("prompt={}", prompt as u8),
+        ],
     }
 }
 
